@@ -5,7 +5,7 @@ state, the re-synthesis after every report, and the decision structure of the sy
 order of the cases, forced-state arbitration), read from the code's shape."""
 import ast
 from ..model import own_nodes, AnalysisError
-from ..paths import factmap, call_text, returns, must_call
+from ..paths import removal_sites, factmap, call_text, returns, must_call
 from .. import supstates
 
 OWNED = {'running_identifiers', '_state', 'state', 'forced_state', 'forced_reason', 'expected_exit', 'last_event_mtime'}
@@ -135,11 +135,11 @@ def run(P, R):
                 'stopped) for STARTING/BACKOFF/RUNNING (RUNNING_STATES), and left untouched for STOPPING', 4)
     u = P.unit('ProcessStatus.update_status')
     fm = factmap(u)
-    disc = [c for c in own_nodes(u.node) if isinstance(c, ast.Call) and call_text(c) == 'self.running_identifiers.discard']
-    ok = len(disc) == 1 and {tuple(f) for f in fm.at(disc[0])} == {('new_state in STOPPED_STATES', True)} and \
-        ast.unparse(disc[0].args[0]) == 'identifier'
+    rem = removal_sites(u, 'self.running_identifiers')
+    disc = [c for c, arg, fs in rem]
+    ok = len(rem) == 1 and rem[0][2] == {('new_state in STOPPED_STATES', True)} and rem[0][1] == 'identifier'
     R.check(r3, ok, 'a stopped-like report removes the instance', 'classify|stopped', u.loc(),
-            'update_status discards the identifier under %s' % [sorted(tuple(f) for f in fm.at(c)) for c in disc])
+            'update_status discards the identifier under %s' % [sorted(fs) for c, arg, fs in rem])
     adds = [c for c in own_nodes(u.node) if isinstance(c, ast.Call) and call_text(c) == 'self.running_identifiers.add']
     repl = [a for a in own_nodes(u.node) if isinstance(a, ast.Assign) and ast.unparse(a.targets[0]) == 'self.running_identifiers']
     run_f = {('new_state in STOPPED_STATES', False), ('new_state in RUNNING_STATES', True)}
